@@ -274,6 +274,15 @@ class Interp:
         self.d.assume(cond, choice)
         return choice
 
+    def choose(self, alts, why="choice"):
+        """Nondeterministic choice among concrete alternatives (forks, no solver involved)."""
+        i = 0
+        while i < len(alts) - 1:
+            if self.decide(self.d.fresh_bool(f"{why}_{i}"), why):
+                break
+            i += 1
+        return alts[i]
+
     # ------------------------------------------------------------ constants
     def const(self, name):
         if name not in self.consts:
